@@ -15,6 +15,7 @@ from .. import AnalysisError, anf, deps
 from ..anf import Rat, sym
 from ..guards import G, TRUE, g_and, g_not, g_or, g_equiv, g_implies, g_sat, compare, canon_sign, OPS
 from ..gvn import Obj, PW, Vec, cases_of, veq, Unsupported
+from ..intervals import single_atom
 from .common import RuleCtx, judge, _short
 
 C = Rat.const
@@ -294,6 +295,22 @@ def _rank(rc: RuleCtx, fi, out, arr):
     stores = [e for e in out.events if e.kind == "store"]
     ret = [st for st in ast.walk(fi.node) if isinstance(st, ast.Return)]
     if len(ret) != 1 or not isinstance(ret[0].value, ast.Name):
+        # a directly returned expression: two idioms are known, one right and one wrong
+        val = out.value()
+        a = single_atom(val) if isinstance(val, Rat) else None
+        if a is not None and a.name in ("argsort", "np.argsort") and a.args:
+            b = single_atom(a.args[0])
+            if b is not None and b.name in ("argsort", "np.argsort") and b.args and b.args[0].equals(arr):
+                res.ok("G-rank", fi.qualname, "argsort(argsort(array)): the inverse permutation of argsort")
+                return
+        if a is not None and a.name.endswith("searchsorted") and len(a.args) >= 2 and a.args[1].equals(arr):
+            b = single_atom(a.args[0])
+            if b is not None and b.name.endswith("sort") and b.args and b.args[0].equals(arr):
+                res.violation("G-rank", fi.module, fi.name, fi.node,
+                              "rank is the insertion position in the sorted values (searchsorted(sort(a), a)): equal values all get the same, lowest, rank - "
+                              "the result is not a permutation of 0..n-1 when the scores tie", _short(val, 120), "ranks[argsort(array)] = arange(len(array))",
+                              construct="rank by searchsorted")
+                return
         res.error("G-rank: rank() no longer returns a single named array - shape not recognised")
         return
     rname = ret[0].value.id
